@@ -58,6 +58,7 @@ def scenarios(ctx):
                     out.append({"id": "chg-%d" % j, "cfg": {"subject": "rr", "table": j}, "steps": steps})
                     j += 1
     out += R.add_family(rng, quick)
+    out += R.refused_family(rng, quick, subjects=("rr",))
     # (1d) extreme weights (as large as the trace arithmetic allows): common factors keep the rotation short
     big = 1 << 28
     for j, ws in enumerate([(big, big), (big, 2 * big), (3 * big, big, big), (big, 0, 2 * big), (2 * big + big, 3), (7, 7 * 9, 7 * 2)]):
